@@ -10,7 +10,9 @@ for sid in sorted(d for d in os.listdir(os.path.join(V, 'seeded')) if os.path.is
     files = sorted(set(re.findall(r'^\+\+\+ b/(\S+)', diff, flags=re.M)))
     what = meta.get('summary') or ' '.join(meta.get('needs', '').split())[:230]
     r = res.get(sid, {})
-    if not r:
+    if meta.get('obsolete'):
+        verdict = 'obsolete: ' + meta['obsolete']
+    elif not r:
         verdict = 'not yet run'
     elif r.get('caught') and r.get('concrete_input'):
         verdict = 'caught ({}), concrete failing input'.format(r.get('tier'))
